@@ -52,6 +52,10 @@ impl Prop for C17 {
         let mut g = Gen::new(rng.derive("workload"), &p);
         let mut sc = g.scenario();
         sc.config.traces = true;
+        // sometimes the chain is still empty when the predictions start
+        if rng.derive("empty").chance(1, 10) {
+            sc.ops.clear();
+        }
         let mut v = case_of(&sc);
         v["probe_seed"] = json!(rng.derive("probes").next());
         v["probes"] = json!(rng.derive("n").range(4, 12));
@@ -82,15 +86,56 @@ impl Prop for C17 {
         let (mut saw_ok, mut saw_fail, mut saw_create) = (false, false, false);
         let mut id = 8_000_000u32;
         let base = sc.ops.len();
-        if violation.is_none() && w.height.is_some() {
+        if violation.is_none() {
             'probes: for k in 0..n {
                 id += 1;
                 let sender = g.rng.below(N_PK as u64) as u8;
                 let ts = BASE_TS + 2_000_000 + id as u64;
                 w.op_index = base + 1 + k as usize;
-                let creation = g.rng.chance(1, 5);
+                // a prediction made before a reorg must not be served after it: ask, roll back, then probe as usual
+                if g.rng.chance(1, 5) && w.height.map_or(false, |h| h >= 2) {
+                    let (t0, d0) = loop {
+                        let (t, d) = g.call_pair();
+                        if !excluded(&t, &d) {
+                            break (t, d);
+                        }
+                    };
+                    let c0 = w.eth_call_obj(&Who::Pk(sender), &Some(t0.clone()), &d0, &None);
+                    let _ = w.inst.call("eth_call", json!([c0]));
+                    let back = g.rng.range(1, 2);
+                    let target = w.height.unwrap_or(0).saturating_sub(back);
+                    let r = w.reorg_to(target);
+                    if r.is_ok() {
+                        w.stats.bump("probe_prediction_across_reorg");
+                    }
+                    // the same question again, now followed by the transaction
+                    id += 1;
+                    let predicted = w.inst.call("eth_call", json!([w.eth_call_obj(&Who::Pk(sender), &Some(t0.clone()), &d0, &None)]));
+                    let tx = Tx { id, kind: TxKind::Call { sender, target: t0, by_inscription: false, data: d0 }, len: LenPolicy::Generous, enc: Enc::Hex };
+                    let r = w.exec_tx(ts, &HashMode::Zero, &tx);
+                    let _ = w.finalise(ts, &HashMode::Zero);
+                    if let (Resp::Ok(rc), true) = (&r, !predicted.is_panic()) {
+                        let real_ok = hex_u64(&rc["status"]) == Some(1);
+                        let th = rc["transactionHash"].as_str().unwrap_or("").to_string();
+                        let real_out = w.inst.call("debug_traceTransaction", json!([th])).ok().and_then(|t| t["output"].as_str().map(|s| s.to_lowercase()));
+                        let (pred_ok, pred_out) = match &predicted {
+                            Resp::Ok(v) => (true, v.as_str().map(|s| s.to_lowercase())),
+                            Resp::Err { data, .. } => (false, data.as_ref().and_then(|d| d.as_str()).map(|s| s.to_lowercase())),
+                            Resp::Panic(_) => (false, None),
+                        };
+                        if pred_ok != real_ok || (real_out.is_some() && pred_out.is_some() && real_out != pred_out) {
+                            violation = Some(Violation::new(
+                                "prediction-after-reorg-differs",
+                                json!({"probe": k, "reorg_to": target, "tx": trunc(&serde_json::to_value(&tx.kind).unwrap()), "eth_call": trunc(&predicted.to_value()), "receipt_status": rc["status"], "transaction_output": real_out}),
+                            ));
+                            break 'probes;
+                        }
+                    }
+                    continue;
+                }
+                let creation = g.rng.chance(1, 5) || w.book.contracts.is_empty();
                 let (call, tx) = if creation {
-                    let prog = g.deploy_prog();
+                    let prog = if g.rng.chance(1, 3) { DeployProg::NumberCode } else { g.deploy_prog() };
                     if matches!(prog, DeployProg::Empty) {
                         continue;
                     }
@@ -105,6 +150,8 @@ impl Prop for C17 {
                             break (t, d);
                         }
                     };
+                    // block number / previous block hash / chain id are context a prediction may depend on
+                    let (target, data) = if g.rng.chance(1, 6) { (Target::Contract(g.rng.below(4) as u8), Cd::BlockInfo) } else { (target, data) };
                     (
                         w.eth_call_obj(&Who::Pk(sender), &Some(target.clone()), &data, &None),
                         Tx { id, kind: TxKind::Call { sender, target, by_inscription: false, data }, len: LenPolicy::Generous, enc: Enc::Hex },
